@@ -177,6 +177,55 @@ def run(ck):
         meta.append((inp, f"{exp['count']} {','.join(map(str, exp['hist']))} {','.join(map(str, ext))}"))
         if ci < 2:
             ck.sample({k: v for k, v in inp.items() if k != "raw"})
+    # ---- compressed files (conforming backend double): count, statistics and the EVLR pointer describe the file
+    try:
+        import lazrs
+        from laspy import LazBackend
+        for ci in range(20 if q else 400):
+            lazrs.CHUNK_SIZE = ck.rng.choice([3, 5])
+            minor, fmt = ck.rng.choice(fio.PAIRS)
+            n = ck.rng.choice([0, 1, 4, 7, 12])
+            evlrs = fio.rand_vlrs(ck.rng, True, 2) if minor >= 4 and ck.rng.random() < 0.7 else None
+            las = fio.make_las(ck.rng, minor, fmt, n, evlrs=evlrs, scales=[0.01, 0.5, 1.0], offsets=[0.0, -100.0, 7.5])
+            arr = las.points.array.copy()
+            inp = {"kind": "compressed_file", "minor": minor, "fmt": fmt, "n": n, "evlrs": None if evlrs is None else len(evlrs), "chunk_size": lazrs.CHUNK_SIZE}
+            ck.case(("c03laz", minor, fmt, n, arr.tobytes(), lazrs.CHUNK_SIZE), nontrivial=n > 0)
+            ck.count("compressed_file")
+            try:
+                buf = io.BytesIO()
+                if ck.rng.random() < 0.5:
+                    las.write(buf, do_compress=True, laz_backend=LazBackend.Lazrs)
+                else:
+                    from laspy.laswriter import LasWriter
+                    w = LasWriter(buf, las.header, do_compress=True, laz_backend=LazBackend.Lazrs, closefd=False)
+                    pos = 0
+                    for pp in c04.rand_partition(ck.rng, n):
+                        w.write_points(las.points[pos:pos + pp])
+                        pos += pp
+                    if minor >= 4 and las.evlrs is not None:
+                        w.write_evlrs(las.evlrs)
+                    w.close()
+                data = buf.getvalue()
+                back = laspy.read(io.BytesIO(data))
+            except Exception as e:
+                ck.fail(f"compressed file: {type(e).__name__}: {e}", inp)
+                continue
+            h = back.header
+            exp = expected_stats(las.header, arr, fmt, minor)
+            if h.point_count != n or len(back.points) != n or back.points.array.tobytes() != arr.tobytes():
+                ck.fail(f"compressed file: header count {h.point_count}, {len(back.points)} records read, {n} stored (or records differ)", inp)
+            if [fio.dbits(x) for x in h.maxs] != [fio.dbits(x) for x in exp["maxs"]] or [fio.dbits(x) for x in h.mins] != [fio.dbits(x) for x in exp["mins"]]:
+                ck.fail(f"compressed file: header extrema {list(map(float, h.maxs))} / {list(map(float, h.mins))} != recomputed {exp['maxs']} / {exp['mins']}", inp)
+            ev_bytes = sum(60 + len(bytes(v.record_data_bytes())) for v in (las.evlrs or [])) if minor >= 4 else 0
+            if ev_bytes:
+                if h.number_of_evlrs != len(las.evlrs) or h.start_of_first_evlr + ev_bytes != len(data):
+                    ck.fail(f"compressed file: EVLR pointer {h.start_of_first_evlr}/{h.number_of_evlrs} does not locate the {ev_bytes} EVLR bytes at the end "
+                            f"of the {len(data)}-byte file", inp)
+            elif h.number_of_evlrs != 0:
+                ck.fail(f"compressed file: number_of_evlrs = {h.number_of_evlrs} without EVLRs", inp)
+        lazrs.CHUNK_SIZE = 5
+    except ImportError:
+        ck.count("compressed_layer_skipped_no_backend_double")
     # ---- in-memory histories
     for hi in range(80 if q else 2000):
         minor, fmt = ck.rng.choice(fio.PAIRS)
